@@ -82,6 +82,12 @@ func (c *Ctx) Assume(s string) {
 	c.assume = append(c.assume, s)
 }
 
+// Undecided records that a rule could not see what it needs (fewer instances than confirmed by hand, a shape it does not
+// recognise).  The check goes on — violations found by other rules are still reported (exit 1); with none, the check exits 2.
+func (c *Ctx) Undecided(format string, a ...any) {
+	c.blind = append(c.blind, fmt.Sprintf(format, a...))
+}
+
 func (c *Ctx) Note(format string, a ...any) { c.notes = append(c.notes, fmt.Sprintf(format, a...)) }
 
 func (c *Ctx) SawFn(name string) { c.fnsSeen[name] = true }
